@@ -27,9 +27,13 @@ FlushSound(log) == \A i \in 1..Len(log) : log[i].k = "flushRet" =>
                                             /\ \A d \in 1..(i - 1) : log[d].k = "data" => d < j
 FaultsRetried(log) == \A i \in 1..Len(log) : log[i].k = "fault" =>
                       (\E j \in (i + 1)..Len(log) : log[j].k \in {"data", "fault"}) \/ Cardinality({f \in 1..i : log[f].k = "fault"}) >= 3
+(* Close disconnects: when Close has returned, the TNC had reported the end of the ARQ session (NEWSTATE DISC /      *)
+(* DISCONNECTED; "disc" in the log) - an echo of the DISCONNECT command alone is not the end of the session          *)
+CloseAfterDisc(log) == \A i \in 1..Len(log) : log[i].k = "closeRet" => \E j \in 1..(i - 1) : log[j].k = "disc"
+TCloseLog == IsEvent("CloseLog") /\ CloseAfterDisc(Ev.log) /\ UNCHANGED dummy /\ Consume
 TTncLog == IsEvent("TncLog") /\ FlushSound(Ev.log) /\ UNCHANGED dummy /\ Consume
 TTncFaults == IsEvent("TncFaults") /\ FaultsRetried(Ev.log) /\ UNCHANGED dummy /\ Consume
 
-TraceNext == TApi \/ TReads \/ TTncData \/ TRetransmit \/ TPtt \/ TExchange \/ TMalformed \/ TCrash \/ TTncLog \/ TTncFaults
+TraceNext == TApi \/ TReads \/ TTncData \/ TRetransmit \/ TPtt \/ TExchange \/ TMalformed \/ TCrash \/ TTncLog \/ TTncFaults \/ TCloseLog
 TraceSpec == TraceInit /\ [][TraceNext]_<<dummy, tvars>>
 =============================================================================
